@@ -268,6 +268,16 @@ func attAlgsFor(format string) []int {
 	return []int{algES256}
 }
 
+// algItem: the statement's alg member; the deviation alg.uint64Wrapped writes it as the CBOR UNSIGNED 64-bit integer 2^64 + alg (which is
+// not the negative COSE identifier: the member is then not an algorithm at all)
+func algItem(s *RegSpec, alg int64) []byte {
+	if s.d("alg.uint64Wrapped") {
+		v := uint64(alg)
+		return []byte{0x1b, byte(v >> 56), byte(v >> 48), byte(v >> 40), byte(v >> 32), byte(v >> 24), byte(v >> 16), byte(v >> 8), byte(v)}
+	}
+	return cborInt(alg)
+}
+
 func stdB64(b []byte) string { return base64.StdEncoding.EncodeToString(b) }
 
 // buildRegistration constructs the response; deviations named in s.Dev alter exactly what their name says while
@@ -286,6 +296,10 @@ func buildRegistration(r *RNG, s *RegSpec) *RegBuilt {
 		switch {
 		case s.Format == "fido-u2f" && s.d("u2f.credNotEC2"):
 			cred = genKeyPair(r, pick(r, []int{algRS256, algEdDSA, algPS256}))
+			s.Algs = allAlgs
+		case s.d("key.rsaExponentAliased"):
+			s.CredAlg = pick(r, []int{algRS256, algPS256, algRS384})
+			cred = genKeyPair(r, s.CredAlg)
 			s.Algs = allAlgs
 		case s.d("key.noAlg"):
 			// the deviation is about EC2 keys (an OKP key without alg is Ed25519 by definition)
@@ -347,6 +361,12 @@ func buildRegistration(r *RNG, s *RegSpec) *RegBuilt {
 			kvs = append(kvs, cborInt(3), cborInt(0))
 		}
 		key = cborMap(kvs...)
+	}
+	if s.d("key.rsaExponentAliased") && cred.Kind == "rsa" {
+		// the same modulus with the exponent 2^64 + e written in nine bytes: a different RSA key (and not one the library supports)
+		e := uint64(cred.RSA.E)
+		eb := []byte{1, byte(e >> 56), byte(e >> 48), byte(e >> 40), byte(e >> 32), byte(e >> 24), byte(e >> 16), byte(e >> 8), byte(e)}
+		key = cborMap(cborInt(1), cborInt(3), cborInt(3), cborInt(int64(s.CredAlg)), cborInt(-1), cborBytes(cred.RSA.N.Bytes()), cborInt(-2), cborBytes(eb))
 	}
 	var oversizeX []byte
 	if s.d("u2f.coordOversize") && cred.Kind == "ec" {
@@ -431,7 +451,7 @@ func buildRegistration(r *RNG, s *RegSpec) *RegBuilt {
 				alg = pick(r, allAlgs)
 			}
 		}
-		b.Stmt = stmtOf(cborText("alg"), cborInt(int64(alg)), cborText("sig"), cborBytes(mkSig(signer, s.CredAlg, signed)))
+		b.Stmt = stmtOf(cborText("alg"), algItem(s, int64(alg)), cborText("sig"), cborBytes(mkSig(signer, s.CredAlg, signed)))
 	case "packed-x5c":
 		att := genKeyPair(r, s.AttAlg)
 		signer := att
@@ -500,9 +520,9 @@ func buildRegistration(r *RNG, s *RegSpec) *RegBuilt {
 		if s.d("x5c.leafSecond") {
 			chain = [][]byte{caCert.Raw, der}
 		}
-		b.Stmt = stmtOf(cborText("alg"), cborInt(int64(s.AttAlg)), cborText("sig"), cborBytes(mkSig(signer, s.AttAlg, signed)), cborText("x5c"), x5cOf(chain...))
+		b.Stmt = stmtOf(cborText("alg"), algItem(s, int64(s.AttAlg)), cborText("sig"), cborBytes(mkSig(signer, s.AttAlg, signed)), cborText("x5c"), x5cOf(chain...))
 		if s.d("x5c.empty") {
-			b.Stmt = stmtOf(cborText("alg"), cborInt(int64(s.AttAlg)), cborText("sig"), cborBytes(mkSig(signer, s.AttAlg, signed)), cborText("x5c"), cborArray())
+			b.Stmt = stmtOf(cborText("alg"), algItem(s, int64(s.AttAlg)), cborText("sig"), cborBytes(mkSig(signer, s.AttAlg, signed)), cborText("x5c"), cborArray())
 		}
 	case "fido-u2f":
 		att := genKeyPairOnCurve(r, algES256, 1, false)
@@ -620,7 +640,7 @@ func buildRegistration(r *RNG, s *RegSpec) *RegBuilt {
 				}
 			}
 		}
-		b.Stmt = stmtOf(cborText("alg"), cborInt(int64(s.CredAlg)), cborText("sig"), cborBytes(mkSig(signer, s.CredAlg, signed)), cborText("x5c"), x5cOf(leafFirstOrSecond(s, der)...))
+		b.Stmt = stmtOf(cborText("alg"), algItem(s, int64(s.CredAlg)), cborText("sig"), cborBytes(mkSig(signer, s.CredAlg, signed)), cborText("x5c"), x5cOf(leafFirstOrSecond(s, der)...))
 	case "apple":
 		certKey := cred
 		if s.d("apple.certKeyOther") {
@@ -752,10 +772,10 @@ func buildRegistration(r *RNG, s *RegSpec) *RegBuilt {
 			toSign = append([]byte{}, certInfo...)
 			toSign[len(toSign)-1] ^= 1
 		}
-		b.Stmt = stmtOf(cborText("ver"), cborText("2.0"), cborText("alg"), cborInt(int64(s.AttAlg)), cborText("x5c"), x5cOf(leafFirstOrSecond(s, der)...),
+		b.Stmt = stmtOf(cborText("ver"), cborText("2.0"), cborText("alg"), algItem(s, int64(s.AttAlg)), cborText("x5c"), x5cOf(leafFirstOrSecond(s, der)...),
 			cborText("sig"), cborBytes(mkSig(signer, s.AttAlg, toSign)), cborText("certInfo"), cborBytes(certInfo), cborText("pubArea"), cborBytes(pubEnc))
 		if s.d("tpm.noCerts") {
-			b.Stmt = stmtOf(cborText("ver"), cborText("2.0"), cborText("alg"), cborInt(int64(s.AttAlg)), cborText("x5c"), cborArray(),
+			b.Stmt = stmtOf(cborText("ver"), cborText("2.0"), cborText("alg"), algItem(s, int64(s.AttAlg)), cborText("x5c"), cborArray(),
 				cborText("sig"), cborBytes(mkSig(signer, s.AttAlg, toSign)), cborText("certInfo"), cborBytes(certInfo), cborText("pubArea"), cborBytes(pubEnc))
 		}
 	case "android-safetynet":
